@@ -11,3 +11,29 @@ Theorem C05_app_valid_iff : forall a, app_valid a = true <-> a_id a <> [] /\ a_v
 Proof. exact app_valid_iff. Qed.
 
 Print Assumptions C05_invalid_app_set_inert.
+
+(* ---- the consent monitor (Model/Monitors.v step5) accepts every trace of the model ----
+   step5 rejects: a request or installer call outside a check the policy allowed; a request inside a check whose
+   install source / interactivity header / updatedisabled / sameversionupdate differ from the parameters the policy
+   returned for that very check; perform_install for a plan update_can_start did not approve (deferred and denied
+   included); WaitingForReboot unless the install had no failed app and reboot_needed answered yes; a reboot unless
+   the most recent reboot_allowed answer was yes; pings while waiting to reboot that are not plain scheduled-task
+   pings.  The theorem quantifies over every script (all policy / HTTP / installer / clock / storage answers and
+   stimuli), every configuration and app set, and both entry points. *)
+Require Import Verif.Model.Monitors Verif.Proofs.Monitor Verif.Proofs.C05Proof.
+
+Theorem C05_consent_monitor_accepts_every_model_trace :
+  forall ep cfg url cup apps e, e_trace e = [] ->
+    accepts step5 (init5 ep) (run_case ep cfg url cup apps e) = true.
+Proof. exact model_accepted_c05. Qed.
+
+(* non-vacuity: the monitor does reject (it is not the trivial one) *)
+Example C05_monitor_rejects_unconsented_request :
+  accepts step5 P5Idle [AHttp {| w_uri := []; w_headers := []; w_body := [];
+                                 w_sum := {| ws_source := ScheduledTask; ws_session := None; ws_request := None; ws_apps := [] |} |}
+                              (HErr TTransport)] = false
+  /\ accepts step5 (P5Check params_default NoPlan) [AInstaller (IPerform (s2b "p")) (IPerformed {| pa_progress := []; pa_results := [] |})] = false
+  /\ accepts step5 (P5Reboot (Some false)) [AInstaller IReboot (IRebooted true)] = false.
+Proof. vm_compute. repeat split. Qed.
+
+Print Assumptions C05_consent_monitor_accepts_every_model_trace.
